@@ -60,7 +60,11 @@ def build_programs(rng, tier):
 
 
 def main(argv=None):
-    return S.run_check(PID, MODULES, THEOREMS, KEYS, build_programs, argv, META)
+    # the goal bookkeeping (`WorkerGoals`: a stop request stays pending until it is polled, whatever else is pending) is
+    # shared with C14: the same unit differential + statement oracle runs here
+    from checks.C14 import goals_differential
+    return S.run_check(PID, MODULES, THEOREMS, KEYS + ("goals:priority", "goals:set-request-result", "goals:request-lost"),
+                       build_programs, argv, META, extra=goals_differential)
 
 
 if __name__ == "__main__":
